@@ -63,6 +63,19 @@ def _gen(ctx, tag, cex=False, simulate=None, depth=None, split=False, **kw):
 
 def run(ctx):
     q = ctx.quick()
+    # 0. the statement at the level of the server's stable entry points (harness/server/api08_test.go): survives a change of
+    # the replay cache's representation that the main harness (which reads the cache) would not compile against
+    api = lib.run_go(ctx, "server", "TestVerifApi08", prefixes=("api08",), tag="api08", timeout=600)
+    lib.collect_go(ctx, api)
+    ctx.log("entry-point level: %d presentations pairs (same / other transport, bit 255, in turn / at once), %d violations" % (
+        api["evaluations"], len(api.get("violations", []))))
+    if api["stats"].get("none_accepted", 0):
+        raise lib.Inconclusive("api08: genuine first packets did not authenticate: %s" % api.get("notes"))
+    if [v for v in ctx.violations]:
+        return lib.finish(ctx, LEVEL, {"evaluations": api["evaluations"], "distinct_nontrivial": api["distinct_nontrivial"],
+                                       "rule": "entry-point level presentations only (the run stopped at the first stage)",
+                                       "samples": api.get("samples", [])[:1] or [v.get("what") for v in ctx.violations[:1]],
+                                       "traces_validated_against_impl": 0, "exhaustive": False}, ASSUME)
     jobs = {}
     pool = concurrent.futures.ThreadPoolExecutor(max_workers=4)
 
